@@ -1,8 +1,10 @@
 package main
 
 import (
+	"fmt"
 	"go/token"
 	"go/types"
+	"os"
 	"sort"
 	"strings"
 
@@ -22,6 +24,7 @@ func propC11() *Property {
 			{ID: "C11.R4", Title: "Harvest works on a clone: the receiver is never written", Floor: 1, Run: c11R4},
 			{ID: "C11.R5", Title: "buffered items are shared with clones: never written in place", Floor: 1, Run: c11R5},
 			{ID: "C11.R6", Title: "every source is replenished to the requested depth", Floor: 1, Run: c11R6},
+			{ID: "C11.R7", Title: "the selection loop: a head is passed over only if it is empty or not newer than the best so far", Floor: 3, Run: c11R7},
 		},
 	}
 }
@@ -358,4 +361,293 @@ func c11R6(c *Ctx) {
 				"asks the source's own page for amount-len(buffer) items from its own base point", "the refill request is not amount-len(buffer) items from the source's own page and base point: "+q.String())
 		})
 	}
+}
+
+// c11R7: the selection loop of microharvest. The best-so-far is a loop-carried
+// value; every trip round the loop (every acyclic path from the loop header
+// back to it) is classified:
+//
+//	kept      the best is unchanged: allowed only if the source has no head
+//	          (empty buffer, or a nil head), or the best exists and the head's
+//	          timestamp is not After the best's;
+//	replaced  the best becomes this source's head: allowed only if there was no
+//	          best yet, or the head's timestamp is After the best's (strictly:
+//	          ties stay with the source listed first).
+//
+// The function returns nil only where the best is known to be nil, and the item
+// popped is the head of the source whose index was recorded together with the
+// best. A shortcut such as treating the zero time as "minus infinity" keeps an
+// existing head out without a best to compare with, and is reported.
+func c11R7(c *Ctx) {
+	P := c.P
+	fn := P.Method("servitor/splicer", "Splicer", "microharvest")
+	name := FuncName(fn)
+	pos := P.Pos(fn.Pos())
+	// the best-so-far: the phi that the non-nil return hands out
+	var best *ssa.Phi
+	for _, b := range fn.Blocks {
+		ret, ok := b.Instrs[len(b.Instrs)-1].(*ssa.Return)
+		if !ok {
+			continue
+		}
+		if isNilConst(ret.Results[0]) {
+			continue
+		}
+		if ph, ok := unwrapLoad(ret.Results[0]).(*ssa.Phi); ok && inCycle(ph.Block()) {
+			best = ph
+		}
+	}
+	if best == nil {
+		c.bad(name+"/selection", pos, name, "cannot identify the loop-carried best-so-far that microharvest returns")
+		return
+	}
+	header := best.Block()
+	// returns of nil happen only where the best is nil
+	for _, b := range fn.Blocks {
+		ret, ok := b.Instrs[len(b.Instrs)-1].(*ssa.Return)
+		if !ok || !isNilConst(ret.Results[0]) {
+			continue
+		}
+		c.check(knownNil(best, b), name+"/ends-only-when-empty", P.InstrPos(ret), name, "nil is returned only when no source had a head", "microharvest can return nil (\"all sources exhausted\") although a best head was found")
+	}
+	paths, complete := enumeratePathsFrom(fn, header, header, 4096)
+	if !complete || len(paths) == 0 {
+		c.bad(name+"/selection", pos, name, "cannot enumerate the paths of the selection loop")
+		return
+	}
+	// resolve a value at the end of a path: header phis take the edge of the path's last block
+	resolve := func(v ssa.Value, blocks []*ssa.BasicBlock) ssa.Value {
+		for i := 0; i < 8; i++ {
+			ph, ok := v.(*ssa.Phi)
+			if !ok {
+				return v
+			}
+			at := -1
+			for j := len(blocks) - 1; j >= 1; j-- {
+				if blocks[j] == ph.Block() {
+					at = j
+					break
+				}
+			}
+			if at < 1 {
+				return v
+			}
+			pred := blocks[at-1]
+			found := false
+			for k, p := range ph.Block().Preds {
+				if p == pred {
+					v = ph.Edges[k]
+					found = true
+					break
+				}
+			}
+			if !found {
+				return v
+			}
+			if v == ssa.Value(ph) {
+				return v
+			}
+			// a header phi resolved at position 0 (the start) is the incoming value itself
+			if at == 0 {
+				return v
+			}
+			blocks = blocks[:at]
+		}
+		return v
+	}
+	isHeadLoad := func(v ssa.Value) (*ssa.UnOp, bool) {
+		u, ok := v.(*ssa.UnOp)
+		if !ok || u.Op != token.MUL {
+			return nil, false
+		}
+		ia, ok := u.X.(*ssa.IndexAddr)
+		if !ok {
+			return nil, false
+		}
+		if k, isC := constInt(ia.Index); !isC || k != 0 {
+			return nil, false
+		}
+		return u, strings.Contains(path(ia.X), ".&elements")
+	}
+	// timeOf(obj): obj.Timestamp(), or a header phi that is updated in step with the best
+	timePhis := map[*ssa.Phi]bool{}
+	isTimeOf := func(t ssa.Value, obj ssa.Value) bool {
+		t = unwrapLoad(t)
+		if call, ok := t.(*ssa.Call); ok && call.Call.IsInvoke() && call.Call.Method.Name() == "Timestamp" && unwrapLoad(call.Call.Value) == unwrapLoad(obj) {
+			return true
+		}
+		if ph, ok := t.(*ssa.Phi); ok && ph.Block() == header && unwrapLoad(obj) == ssa.Value(best) {
+			timePhis[ph] = true
+			return true
+		}
+		return false
+	}
+	afterFact := func(facts []Fact, head ssa.Value, truth bool) bool {
+		for _, f := range facts {
+			call, ok := f.Cond.(*ssa.Call)
+			if !ok || f.Truth != truth {
+				continue
+			}
+			if sc := calleeObj(&call.Call); sc == nil || sc.Name() != "After" || sc.Pkg() == nil || sc.Pkg().Path() != "time" || len(call.Call.Args) != 2 {
+				continue
+			}
+			if isTimeOf(call.Call.Args[0], head) && isTimeOf(call.Call.Args[1], best) {
+				return true
+			}
+		}
+		return false
+	}
+	nKept, nReplaced := 0, 0
+	type trip struct {
+		blocks   []*ssa.BasicBlock
+		replaced bool
+		head     ssa.Value
+	}
+	var trips []trip
+	for _, pf := range paths {
+		out := unwrapLoad(resolve(best, pf.blocks))
+		// the head this trip looks at, if any
+		var head ssa.Value
+		for _, b := range pf.blocks[:len(pf.blocks)-1] {
+			for _, in := range b.Instrs {
+				if v, ok := in.(ssa.Value); ok {
+					if u, isHead := isHeadLoad(v); isHead {
+						head = u
+					}
+				}
+			}
+		}
+		lines := ""
+		for _, b := range pf.blocks {
+			if len(b.Instrs) > 0 {
+				lines += fmt.Sprintf("%d,", P.Fset.Position(b.Instrs[0].Pos()).Line)
+			}
+		}
+		switch {
+		case out == ssa.Value(best):
+			nKept++
+			trips = append(trips, trip{pf.blocks, false, head})
+			empty := false
+			for _, f := range pf.facts {
+				cmp, ok := f.Cmp()
+				if !ok {
+					continue
+				}
+				// len(elements) == 0
+				if k, isC := constInt(cmp.Y); isC && k == 0 && strings.HasPrefix(path(cmp.X), "builtin:len(") && strings.Contains(path(cmp.X), ".&elements") {
+					if cmp.Op == token.EQL {
+						empty = true
+					}
+				}
+				// head == nil
+				if head != nil && isNilConst(cmp.Y) && (unwrapLoad(cmp.X) == head || path(cmp.X) == path(head)) && cmp.Op == token.EQL {
+					empty = true
+				}
+			}
+			bestKnown := false
+			for _, f := range pf.facts {
+				cmp, ok := f.Cmp()
+				if ok && isNilConst(cmp.Y) && unwrapLoad(cmp.X) == ssa.Value(best) && cmp.Op == token.NEQ {
+					bestKnown = true
+				}
+			}
+			if os.Getenv("SERVCHECK_DEBUG_C11") != "" {
+				for _, f := range pf.facts {
+					if cmp, ok := f.Cmp(); ok {
+						fmt.Fprintf(os.Stderr, "path %s fact %v: %s %s %s\n", lines, f.Truth, path(cmp.X), cmp.Op, path(cmp.Y))
+					}
+				}
+			}
+			notNewer := head != nil && bestKnown && afterFact(pf.facts, head, false)
+			okKeep := empty || notNewer
+			c.check(okKeep, name+"/kept", pos, name, fmt.Sprintf("the best is kept because the source is empty (%v) or the best exists and the head is not newer (%v) — blocks at lines %s", empty, notNewer, lines),
+				"a source with a head is passed over although there is no best yet, or without its head's timestamp being compared with the best's: heads with a missing (zero) timestamp are never delivered and the feed ends early — blocks at lines "+lines)
+		case head != nil && out == head:
+			nReplaced++
+			trips = append(trips, trip{pf.blocks, true, head})
+			first := false
+			for _, f := range pf.facts {
+				cmp, ok := f.Cmp()
+				if ok && isNilConst(cmp.Y) && unwrapLoad(cmp.X) == ssa.Value(best) && cmp.Op == token.EQL {
+					first = true
+				}
+			}
+			okRep := first || afterFact(pf.facts, head, true)
+			c.check(okRep, name+"/replaced", pos, name, "the head becomes the best because there was none or it is strictly newer",
+				"a head replaces the best without being strictly newer: ties no longer go to the source listed first, or older items overtake newer ones — blocks at lines "+lines)
+		default:
+			c.bad(name+"/selection", pos, name, "the best-so-far becomes something other than the current source's head — blocks at lines "+lines)
+		}
+	}
+	c.check(nKept > 0 && nReplaced > 0, name+"/selection-shape", pos, name, fmt.Sprintf("%d keeping and %d replacing trips classified", nKept, nReplaced), "the selection loop has no keeping or no replacing trip")
+	// loop-carried companions (cached timestamp) move in step with the best
+	for ph := range timePhis {
+		okStep := true
+		for _, t := range trips {
+			out := unwrapLoad(resolve(ph, t.blocks))
+			if !t.replaced && out != ssa.Value(ph) {
+				okStep = false
+			}
+			if t.replaced {
+				call, ok := out.(*ssa.Call)
+				if !ok || !call.Call.IsInvoke() || call.Call.Method.Name() != "Timestamp" || unwrapLoad(call.Call.Value) != t.head {
+					okStep = false
+				}
+			}
+		}
+		c.check(okStep, name+"/cached-time", pos, name, "the remembered timestamp is the best's timestamp on every trip", "the remembered timestamp is not updated in step with the best-so-far")
+	}
+	// the popped source is the one recorded with the best
+	eachInstr(fn, func(b *ssa.BasicBlock, _ int, in ssa.Instruction) {
+		st, ok := in.(*ssa.Store)
+		if !ok || inCycle(b) {
+			return
+		}
+		fa, ok := st.Addr.(*ssa.FieldAddr)
+		if !ok || fieldOf(fa).Name() != "elements" {
+			return
+		}
+		ia, ok := fa.X.(*ssa.IndexAddr)
+		if !ok {
+			return
+		}
+		idxPhi, ok := unwrapLoad(ia.Index).(*ssa.Phi)
+		okIdx := ok && idxPhi.Block() == header
+		if okIdx {
+			for _, t := range trips {
+				out := unwrapLoad(resolve(idxPhi, t.blocks))
+				if !t.replaced && out != ssa.Value(idxPhi) {
+					okIdx = false
+				}
+				if t.replaced {
+					// the index of the source whose head was taken
+					hu := t.head.(*ssa.UnOp)
+					hia := hu.X.(*ssa.IndexAddr)
+					src := ""
+					if ld, ok := hia.X.(*ssa.UnOp); ok {
+						if sfa, ok := ld.X.(*ssa.FieldAddr); ok {
+							base := sfa.X
+							if al, ok := base.(*ssa.Alloc); ok {
+								// the range value: a copy of s[i]
+								for _, r := range refs(al) {
+									if st, ok := r.(*ssa.Store); ok && st.Addr == ssa.Value(al) {
+										if cp, ok := st.Val.(*ssa.UnOp); ok && cp.Op == token.MUL {
+											base = cp.X
+										}
+									}
+								}
+							}
+							if sia, ok := base.(*ssa.IndexAddr); ok {
+								src = path(sia.Index)
+							}
+						}
+					}
+					if src == "" || path(out) != src {
+						okIdx = false
+					}
+				}
+			}
+		}
+		c.check(okIdx, name+"/pop-index", P.InstrPos(in), name, "the item is popped from the source whose head was chosen", "the source that is popped is not the one whose head was chosen: an item is delivered twice and another is lost")
+	})
 }
